@@ -289,6 +289,7 @@ func (g *Gen) frameStore(st *State, p *Val, pos token.Pos, text string) {
 // ---------- instruction translation ----------
 
 func (g *Gen) instr(st *State, in ssa.Instruction) {
+	g.keySt = st
 	switch x := in.(type) {
 	case *ssa.DebugRef, *ssa.RunDefers:
 		return
@@ -987,6 +988,8 @@ func (g *Gen) doConvert(st *State, x *ssa.Convert) *Val {
 			m := g.memSym(st, et, "", KInt)
 			g.assume("true", fmt.Sprintf("(forall ((k Int)) (! (=> (and (<= 0 k) (< k %s)) (= (select (select %s %s) k) %s)) :pattern ((select (select %s %s) k))))",
 				v.Len, m, arr, g.byteAt(st, et, v.Arr, add(v.Off, "k")), m, arr))
+			// equal contents, equal key
+			g.assume("true", eq("(strkey (select "+m+" "+arr+") 0 "+v.Len+")", "(strkey (select "+m+" "+v.Arr+") "+v.Off+" "+v.Len+")"))
 		}
 		return &Val{K: KSlice, T: to, Arr: arr, Off: "0", Len: v.Len, Cap: v.Len}
 	case fk == KSlice && tk == KString:
@@ -997,7 +1000,7 @@ func (g *Gen) doConvert(st *State, x *ssa.Convert) *Val {
 			g.assume("true", fmt.Sprintf("(forall ((k Int)) (! (=> (and (<= 0 k) (< k %s)) (= (select (select %s %s) k) %s)) :pattern ((select (select %s %s) k))))",
 				v.Len, m, arr, g.byteAt(st, et, v.Arr, add(v.Off, "k")), m, arr))
 			// content-determined key
-			g.assume("true", eq("(strkey "+arr+" 0 "+v.Len+")", "(strkey "+v.Arr+" "+v.Off+" "+v.Len+")"))
+			g.assume("true", eq("(strkey (select "+m+" "+arr+") 0 "+v.Len+")", "(strkey (select "+m+" "+v.Arr+") "+v.Off+" "+v.Len+")"))
 		}
 		return &Val{K: KString, T: to, Arr: arr, Off: "0", Len: v.Len}
 	case fk == KInt && tk == KString:
